@@ -8,6 +8,7 @@
 -/
 import DdnnfVerif.Proofs.Keystone
 import DdnnfVerif.Proofs.LoadSem
+import DdnnfVerif.Proofs.LoadWF2_14
 namespace Ddnnf.C01
 
 /-- The reported count (`Ddnnf::rc()` = count of the last node) is the number of assignments to
@@ -78,5 +79,46 @@ theorem d4_count_is_number_of_models_of_the_file (lines : List D4.Line) (total :
       ((allBits (D4.load lines total).1).filter fun b =>
         D4.sem (assignOf b) (lines.foldl D4.stepLine { total := total }).g r 0).length :=
   checked_load_count _ _ _ hwf (fun σ => d4_loader_preserves_denotation lines total hnode hnz r hacyc hok σ)
+
+/-! ### the d4 loader, no per-input check left: well-formedness of the loaded array is proved
+
+`D4.GDec` : the successors of every and-node of the text's graph mention pairwise disjoint variables
+(decomposable); `hdet` : at most one successor of an or-node is true under any assignment
+(deterministic); `hdecl` : the text declares no literal nodes (d4 writes literals on edges only). -/
+
+/-- **The array the d4 loader builds is well formed** (children first, decomposable, smooth,
+deterministic, root mentions every feature, no literal 0) for every d4 text that follows the d4
+conventions, is satisfiable and on which the loader model raises no error flag — free features,
+True/False elimination, vanished features, smoothing and flattening included. -/
+theorem d4_loader_yields_wellformed_array (lines : List D4.Line) (total : Nat)
+    (hnode : ∃ k, D4.Line.node k ∈ lines) (hdecl : ∀ l, D4.Line.node (.lit l) ∉ lines)
+    (r : Nat → Nat) (hacyc : D4.Acyclic (D4.phase1 lines total).g r)
+    (hnz : D4.LitNZ (D4.phase1 lines total).g) (hdec : D4.GDec (D4.phase1 lines total).g)
+    (hdet : ∀ (σ : Assignment) (x : Nat), (D4.phase1 lines total).g.kindOf x = some .or →
+      ((D4.phase1 lines total).g.outs.getD x []).countP (D4.sem σ (D4.phase1 lines total).g r) ≤ 1)
+    (hok : (D4.load lines total).2.2 = false)
+    (hsat : ∃ σ, D4.sem σ (D4.phase1 lines total).g r 0 = true) :
+    WF (D4.load lines total).2.1 (D4.load lines total).1 :=
+  D4.load_wf' lines total hnode hdecl r hacyc hnz hdec hdet hok hsat
+
+/-- **C01 for d4 input, end to end in the model**: the count reported for the loaded array is the
+number of assignments to the loader's feature range that satisfy the text — for every d4 text under
+the same hypotheses, any number of features, no truth table and no per-input structural check. -/
+theorem d4_count_is_number_of_models_of_the_text (lines : List D4.Line) (total : Nat)
+    (hnode : ∃ k, D4.Line.node k ∈ lines) (hdecl : ∀ l, D4.Line.node (.lit l) ∉ lines)
+    (r : Nat → Nat) (hacyc : D4.Acyclic (D4.phase1 lines total).g r)
+    (hnz : D4.LitNZ (D4.phase1 lines total).g) (hdec : D4.GDec (D4.phase1 lines total).g)
+    (hdet : ∀ (σ : Assignment) (x : Nat), (D4.phase1 lines total).g.kindOf x = some .or →
+      ((D4.phase1 lines total).g.outs.getD x []).countP (D4.sem σ (D4.phase1 lines total).g r) ≤ 1)
+    (hok : (D4.load lines total).2.2 = false)
+    (hsat : ∃ σ, D4.sem σ (D4.phase1 lines total).g r 0 = true) :
+    count (D4.load lines total).2.1 (rootIx (D4.load lines total).2.1) =
+      ((allBits (D4.load lines total).1).filter fun b =>
+        D4.sem (assignOf b) (D4.phase1 lines total).g r 0).length :=
+  D4.load_count' lines total hnode hdecl r hacyc hnz hdec hdet hok hsat
+
+/-- the hypotheses are satisfiable: `o 1 0 / t 2 0 / 1 2 1 0 / 1 2 -1 0` with two features (feature 2
+free) loads to a well-formed array -/
+example : WF (D4.load D4.exLines 2).2.1 (D4.load D4.exLines 2).1 := D4.ex_wf
 
 end Ddnnf.C01
